@@ -9,6 +9,15 @@ PARTIAL = ('Static analysis decides only the structural clauses listed in DESIGN
            'property: breaking it breaks the behaviour for some input); the remaining, value-level clauses are not decided.')
 
 CHECKS = {
+    'C04': ('other', 'ADT-construction closure + sibling field-use agreement over all AcbWriter impls + variant taint over MIR (+ compile-fail witnesses in thorough)',
+            'R4a a ConstrainedDecimal (every balance/ACB/amount) can only be created by the checking constructor: all aggregates enumerated, no '
+            'field store / &mut borrow / DerefMut-style impl / transmute / unsafe; R4b every output mode (text, CSV, web-UI serialiser) exports '
+            'RenderTable.errors and the app pushes the bookkeeping error into it; R4c partial deltas of a rejected security never reach a gains or '
+            'summary calculator. ' + PARTIAL % 'C04'),
+    'C05': ('other', 'abstract interpretation in a sign lattice (per generic instantiation) of every ConstrainedDecimal try_from().unwrap(); def-use rule parser-result -> unwrap',
+            'R5a each of the ~25 infallibility beliefs `ConstrainedDecimal::try_from(e).unwrap()` is justified by sign algebra including rounding-to-zero, '
+            'per instantiation of the generic wrappers (two sites by reviewed relational argument whose premises are re-checked); R5b no parser result on '
+            'non-constant text reaches unwrap/expect, and every compiled regex pattern is constant-derived. ' + PARTIAL % 'C05'),
     'C08': ('other', 'loop-exit rule on per-security loops + argument provenance + global-writer census over MIR',
             'R8a no early exit from any loop driven by a security-keyed map; R8b the bookkeeping entry point gets only that security\'s '
             'rows/opening position and no &mut state; R8c no process-global mutable state beyond three reviewed statics. ' + PARTIAL % 'C08'),
